@@ -44,3 +44,7 @@ impl s2n_quic_core::crypto::CryptoSuite for Suite {
     type ZeroRttHeaderKey = zero_rtt::ZeroRttHeaderKey;
     type RetryKey = retry::RetryKey;
 }
+
+#[cfg(all(aws_s2n_quic_verif, test, not(kani)))]
+#[path = "/verif/harness/shim/kani.rs"]
+mod kani;
